@@ -243,6 +243,7 @@ def runMonitor (cfg : Cfg) (tr : List Step) (m : String) : String :=
     else if m == "c19-cancel" then some (Afkak.Monitor.C19.cancel cfg tr)
     else if m == "c19-detach" then some (Afkak.Monitor.C19.detach cfg tr)
     else if m == "c19-stop" then some (Afkak.Monitor.C19.stop cfg tr)
+    else if m == "c19-schedule" then some (Afkak.Monitor.C19.schedule cfg tr)
     else none
   match v with
   | some true => "ok"
